@@ -1,6 +1,7 @@
 package main
 
 import (
+	"encoding/binary"
 	"encoding/json"
 	"fmt"
 	"os"
@@ -69,8 +70,8 @@ func both(string) []string { return []string{"asm", "noasm"} }
 
 func init() {
 	addSpec(&propSpec{
-		ID:   "C13",
-		Rule: "cases: one-shot lengths 0..1024 x 4 contents x 4 alignments; streaming: exhaustive carry-buffer fill 0..15 x next write {0..49,63..65,4095..4097} x following write 0..33 x {fresh, after one stripe} with Sum32 (twice) and Sum probes after every write and Reset-reuse; random partitions up to 8 MiB; totals 2^32-16..2^32+16 via state copies (thorough: one-shot on real 4 GiB buffers and a Writer trailer for 2^32+5 bytes). A cell is (part, carry, length class); every case compares against the reference so all are non-trivial.",
+		ID:          "C13",
+		Rule:        "cases: one-shot lengths 0..1024 x 4 contents x 4 alignments; streaming: exhaustive carry-buffer fill 0..15 x next write {0..49,63..65,4095..4097} x following write 0..33 x {fresh, after one stripe} with Sum32 (twice) and Sum probes after every write and Reset-reuse; random partitions up to 8 MiB; totals 2^32-16..2^32+16 via state copies (thorough: one-shot on real 4 GiB buffers and a Writer trailer for 2^32+5 bytes). A cell is (part, carry, length class); every case compares against the reference so all are non-trivial.",
 		Assumptions: baseAssumptions,
 		Require: func(rs *runState) string {
 			if rs.counters["boundary_probes"] < 66 {
@@ -80,8 +81,8 @@ func init() {
 		},
 	})
 	addSpec(&propSpec{
-		ID:   "C19",
-		Rule: "complete enumeration: every FLG x BD descriptor (65536) x every checksum byte (256), content-size field present exactly when FLG says so, with 2 (quick) / 16 (thorough) size values incl. 2^64-1; each header goes through ValidFrameHeader and a fresh Reader (Read, Size). A cell is (FLG value, size value index); plus non-magic first words.",
+		ID:          "C19",
+		Rule:        "complete enumeration: every FLG x BD descriptor (65536) x every checksum byte (256), content-size field present exactly when FLG says so, with 2 (quick) / 16 (thorough) size values incl. 2^64-1; each header goes through ValidFrameHeader and a fresh Reader (Read, Size). A cell is (FLG value, size value index); plus non-magic first words.",
 		Assumptions: append([]string{"content-size values are sampled (2 or 16 of 2^64); everything else in the header space is enumerated"}, baseAssumptions...),
 		Exhaustive: func(rs *runState) bool {
 			// 128 FLG values without size flag + 128 with, times size values
@@ -97,6 +98,141 @@ func init() {
 			return ""
 		},
 	})
+}
+
+func init() {
+	compRule := "sources: lengths 0..40 x 6 content kinds, every string over {a,b} up to length 12 (thorough 17), window-edge data (two copies of a random string at distance 65533..65538, 131071..131073, ...; with a dense run in front so the compressors scan it), literal/match length-code classes (14,15,16,269..272,15+255k+-1 / 18..20,273..275,19+255k+-1), end-rule runs of length 13..80, seeded draws from 12 classes (constant, periodic incl. period dividing the length, random, low entropy, text, LZ-built, tail repeat, ...) up to 4 MiB; entry points: package function, fresh object, one long-lived object reused across the whole case stream, fast and HC at depths {0,1,2,3,4,16,Level1..9,65537,2^20}. A cell is (source class, size class, entry point, depth, block has matches); "
+	addSpec(&propSpec{
+		ID:          "C01",
+		Rule:        compRule + "each block is decoded by the library's UncompressBlock into len(src) bytes and compared with the source.",
+		Assumptions: baseAssumptions,
+		Require: func(rs *runState) string {
+			for _, k := range []string{"blocks_with_offset_65535", "blocks_with_match_after_64K", "blocks_with_multibyte_match_len", "blocks_with_multibyte_literal_len"} {
+				if rs.counters[k] == 0 {
+					return "no emitted block exercised " + k
+				}
+			}
+			return ""
+		},
+	})
+	addSpec(&propSpec{
+		ID:          "C10",
+		Rule:        compRule + "every block returned with n>0 for destination sizes {bound, len(src), len(src)/2+8, bound-1, bound+5} is parsed by the independent strict validator (offset 1..65535 within the output, literals-only final sequence, last 5 bytes literals, last match >= 12 bytes before the end) and must decode to the source.",
+		Assumptions: baseAssumptions,
+		Require: func(rs *runState) string {
+			if rs.counters["blocks_with_matches"] == 0 {
+				return "no block with a match was validated"
+			}
+			return ""
+		},
+	})
+	addSpec(&propSpec{
+		ID:          "C11",
+		Rule:        "sources as for C01 (smaller); destination lengths: every length 0..bound+3 when the bound is <= 400 (thorough 3000), else {0,1,2,n*-2..n*+2,len(src)-1..len(src)+1,bound-1,bound,bound+1,bound+7} plus seeded lengths biased just below the achievable size n*; each destination is a sub-slice of a canary-filled buffer (spare capacity) and, sampled, ends at an unmapped guard page; monitors: panic, n>len(dst), canary change, zero/err at >= bound, err with n!=0, n>0 whose dst[:n] is not a complete block for the source (reference decoder). A cell is (source class, size class, entry point, outcome, destination length relative to n*/bound).",
+		Assumptions: baseAssumptions,
+	})
+}
+
+func init() {
+	decRule := "triples (block, dictionary, len(dst)): the full class product of the block grammar (21 literal-length classes x 17 offset classes incl. 0, di, di+1, di+len(dict), di+len(dict)+1, 65535 x 14 match-length classes x 17 distance-to-end classes incl. 'ends after the match' x dictionary lengths {0,20,65535,65536,70000} x with/without a leading sequence), valid compressed blocks decoded into every destination length around the true size, mutations/truncations of valid blocks, token-biased random bytes, random grammar blocks, nil/empty slices; destination lengths exact, one short, +1..+100, short by the tail. Every triple runs in 4 placements: all buffers ending at an unmapped page with read-only inputs, all buffers starting after an unmapped page, and twice on the heap with spare destination capacity holding a canary and different prior contents. A cell is (generator class, reference verdict, library outcome, dictionary size class, features: dict/straddle/overlap/long lengths). "
+	threeVariants := func(tier string) []string {
+		if tier == "thorough" {
+			return []string{"asm", "noasm", "checkptr", "asan"}
+		}
+		return []string{"asm", "noasm"}
+	}
+	addSpec(&propSpec{
+		ID:          "C03",
+		Rule:        decRule + "Judged: panic, fault at a guard page (attributed to src/dst/dict side), canary change, n outside [0,len(dst)] with nil error, inputs modified.",
+		Assumptions: append([]string{"guard pages see only accesses that leave the buffer on the side adjacent to the unmapped page; both alignments and canaries are used to cover the other side; the asan/checkptr builds (thorough) see only Go-side accesses of the portable decoder"}, baseAssumptions...),
+		Variants:    threeVariants,
+		Shards: func(tier, v string) int {
+			if v == "asan" || v == "checkptr" {
+				return 8
+			}
+			return 16
+		},
+	})
+	addSpec(&propSpec{
+		ID:          "C04",
+		Rule:        decRule + "Judged three-valued against the reference decoder: strictly valid blocks that fit must be accepted with exactly the reference bytes; zero offset / offset before the dictionary / truncated / too much output must be rejected; leniently valid blocks may go either way but accepted bytes must be the reference's; results must not depend on placement or on the destination's prior contents.",
+		Assumptions: baseAssumptions,
+		Variants:    both,
+	})
+	addSpec(&propSpec{
+		ID:          "C12",
+		Rule:        decRule + "Both builds (default with the amd64 assembly, and -tags noasm) execute the same seeded stream and log (case, triple, ok/err, n, hash(dst[:n])); the logs are joined by (case, triple) and every record must be identical.",
+		Assumptions: baseAssumptions,
+		Variants:    both,
+		Post:        c12Join,
+		Require: func(rs *runState) string {
+			if rs.counters["joined_records"] < 100000 {
+				return fmt.Sprintf("only %d records joined", rs.counters["joined_records"])
+			}
+			return ""
+		},
+	})
+}
+
+// c12Join compares the result logs of the asm and noasm workers shard by shard.
+func c12Join(rs *runState) {
+	for shard := 0; shard < 16; shard++ {
+		a := readRes(rs.work, "asm", shard)
+		b := readRes(rs.work, "noasm", shard)
+		i, j := 0, 0
+		for i+32 <= len(a) && j+32 <= len(b) {
+			ka := resKey(a[i:])
+			kb := resKey(b[j:])
+			switch {
+			case ka < kb:
+				i += 32
+				rs.counters["unjoined_records"]++
+			case kb < ka:
+				j += 32
+				rs.counters["unjoined_records"]++
+			default:
+				rs.counters["joined_records"]++
+				if a[i+16] == 1 && b[j+16] == 1 {
+					rs.counters["joined_both_ok"]++
+				} else if a[i+16] == 0 && b[j+16] == 0 {
+					rs.counters["joined_both_err"]++
+				}
+				if string(a[i+12:i+32]) != string(b[j+12:j+32]) {
+					cs := int64(binary.LittleEndian.Uint64(a[i:]))
+					sub := binary.LittleEndian.Uint32(a[i+8:])
+					desc := func(r []byte) string {
+						st := []string{"error", "ok", "fault"}[r[16]%3]
+						return fmt.Sprintf("%s n=%d hash=%016x", st, int32(binary.LittleEndian.Uint32(r[12:])), binary.LittleEndian.Uint64(r[24:]))
+					}
+					kind := "outcome"
+					if a[i+16] == b[j+16] {
+						kind = "bytes-or-length"
+					}
+					det, _ := json.Marshal(map[string]interface{}{"case": cs, "triple": sub, "asm": desc(a[i:]), "noasm": desc(b[j:])})
+					rs.addViolation(&violation{Prop: "C12", Key: "asm-noasm-differ/" + kind, Msg: fmt.Sprintf("case %d triple %d: assembly decoder: %s; portable decoder: %s", cs, sub, desc(a[i:]), desc(b[j:])),
+						Case: cs, Variant: "noasm", Tier: rs.tier, Seed: rs.seed, Detail: det})
+				}
+				i += 32
+				j += 32
+			}
+		}
+	}
+}
+
+func resKey(r []byte) uint64 {
+	return binary.LittleEndian.Uint64(r)<<24 | uint64(binary.LittleEndian.Uint32(r[8:]))
+}
+
+func readRes(work, variant string, shard int) []byte {
+	var all []byte
+	for attempt := 0; ; attempt++ {
+		b, err := os.ReadFile(filepath.Join(work, fmt.Sprintf("%s.%d.%d.jsonl.res", variant, shard, attempt)))
+		if err != nil {
+			break
+		}
+		all = append(all, b[:len(b)/32*32]...)
+	}
+	return all
 }
 
 // ---- race logs -------------------------------------------------------------
